@@ -93,36 +93,46 @@ class FoldMixin:
         accs = []
         self.find_accumulators(body, accs)
         if not accs:
+            self.notes.append("loop %s not summarised: reason 1" % s.get("loop", 0))
             return NotImplemented
         keys = set(expr_key(a) for a in accs)
         if len(keys) != 1:
+            self.notes.append("loop %s not summarised: reason 2" % s.get("loop", 0))
             return NotImplemented
         X = accs[0]
         xk = expr_key(X)
         at = self.T(X)
         if at.under().k != "slice" or not is_scalar_type(at.elem()):
+            self.notes.append("loop %s not summarised: reason 3" % s.get("loop", 0))
             return NotImplemented
         if s.get("Tok") == "=":
+            self.notes.append("loop %s not summarised: reason 4" % s.get("loop", 0))
             return NotImplemented
         acc, regions, fields = self.assigned_in(body)
         outer = [o for o in acc if (o in st.vars or ("esc", o) in st.vars)]
         if X["k"] == "Ident":
             if set(outer) - {X["obj"]}:
+                self.notes.append("loop %s not summarised: reason 5" % s.get("loop", 0))
                 return NotImplemented
             if fields:
+                self.notes.append("loop %s not summarised: reason 6" % s.get("loop", 0))
                 return NotImplemented
         else:
             if outer:
+                self.notes.append("loop %s not summarised: reason 7" % s.get("loop", 0))
                 return NotImplemented
             sel = X.get("sel")
             if X["k"] != "SelectorExpr" or not sel or sel["kind"] != "field":
+                self.notes.append("loop %s not summarised: reason 8" % s.get("loop", 0))
                 return NotImplemented
             path = self.field_path(self.T(X["X"]), sel["index"])
             ok_fields = set((p[0].name(), p[1]) for p in path)
             if set(fields) - ok_fields:
+                self.notes.append("loop %s not summarised: reason 9" % s.get("loop", 0))
                 return NotImplemented
         for r in regions:
             if r is None or expr_key(r) != xk:
+                self.notes.append("loop %s not summarised: reason 10" % s.get("loop", 0))
                 return NotImplemented
         # the source must not share storage with the accumulator
         u = xt.under()
@@ -130,10 +140,12 @@ class FoldMixin:
             skey = self.mem_key(xt.elem(), 0, leaves(xt.elem())[0][1])
             akey = self.mem_key(at.elem(), 0, leaves(at.elem())[0][1])
             if skey == akey:
+                self.notes.append("loop %s not summarised: reason 11" % s.get("loop", 0))
                 return NotImplemented
         fr = self.frames[-1]
         a0 = self.ev(X, st)
         if not isinstance(a0, SliceV) or a0.lv is not None:
+            self.notes.append("loop %s not summarised: reason 12" % s.get("loop", 0))
             return NotImplemented
         # ---- one arbitrary iteration on an abstract accumulator
         b = st.fork()
@@ -146,6 +158,7 @@ class FoldMixin:
             self.assign_to(s["Key"], self.int_of(i, self.T(s["Key"])), b, tok)
         if s.get("Value") and s["Value"].get("Name") != "_":
             if xt.is_string():
+                self.notes.append("loop %s not summarised: reason 13" % s.get("loop", 0))
                 return NotImplemented
             v = self.arr_get(xv, i) if u.k == "array" else self.slice_get(b, xv, i)
             self.assign_to(s["Value"], v, b, tok)
@@ -236,8 +249,17 @@ class FoldMixin:
         for jj in range(w - 1, -1, -1):
             ej = z3.substitute(elems[jj], (i, kq))
             chain = ej if chain is None else z3.If(jq == idx(jj), ej, chain)
-        facts.append(z3.ForAll([kq, jq], z3.Implies(z3.And(kq >= 0, kq < n, jq >= 0, jq < idx(w)),
-                                                  z3.Select(FA, res.off + a0.ln + idx(w) * kq + jq) == chain)))
+        # the loop ran to completion, so iteration k reached the end of its body: its element terms are read under
+        # that path condition (the two facts travel together so that one instance carries both)
+        through = z3.substitute(out.pc, (i, kq))
+        if w == 1:
+            # one element per iteration: a one-variable universal (matched against array reads of a goal)
+            facts.append(z3.ForAll([kq], z3.Implies(z3.And(kq >= 0, kq < n),
+                                                    z3.And(through, z3.Select(FA, res.off + a0.ln + kq) == z3.substitute(elems[0], (i, kq))))))
+        else:
+            facts.append(z3.ForAll([kq, jq], z3.Implies(z3.And(kq >= 0, kq < n, jq >= 0, jq < idx(w)),
+                                                      z3.And(through, z3.Select(FA, res.off + a0.ln + idx(w) * kq + jq) == chain))))
+        facts.append(z3.ForAll([kq], z3.Implies(z3.And(kq >= 0, kq < n), through)))
         self.frame_region_write(st.fork(zand(st.pc, n != idx(0))), a0.rid, win_lo)
         for f in facts:
             self.assume(st, f)
